@@ -39,7 +39,7 @@ ASSUMPTIONS = [
 FLOOR = {"quick": 400, "thorough": 8000}
 
 EXTS = ["colon_fence", "strikethrough", "deflist"]
-LEAF_KINDS = ["para", "para2", "heading", "code", "target", "unknown_dir", "unknown_role", "strike", "bad_option"]
+LEAF_KINDS = ["para", "para2", "heading", "code", "target", "unknown_dir", "unknown_role", "strike", "bad_option", "dupdef"]
 TRACKED = ("block_quote", "bullet_list", "enumerated_list", "list_item", "note", "warning", "admonition", "container")
 
 _known = None
@@ -88,6 +88,10 @@ def emit(node, ctx, line0, chain, file):
             lines = [f"{m} ~~gone~~ end"]
         elif k == "bad_option":
             lines = ["~~~{tip}", f":bogus{m}: 1", f"{m} body", "~~~"]
+        elif k == "dupdef":
+            # the second definition is the duplicate: its warning belongs to its own line
+            lines = [f"{m} para", "", f"[dd{m}]: https://e.org/a", "", f"[dd{m}]: https://e.org/b"]
+            rec["warn_line"] = line0 + 4
         ctx.leaves.append(rec)
         return lines
     if t == "seq":
@@ -278,7 +282,7 @@ def check_case(acc, tree) -> list[dict]:
         want_src = os.path.join(tmp, leaf["file"]) if leaf["file"] else src
         # --- the node
         node = None
-        if k in ("para", "para2", "unknown_role", "strike"):
+        if k in ("para", "para2", "unknown_role", "strike", "dupdef"):
             cands = [p for p in doc.findall(nodes.paragraph) if m in p.astext() and not isinstance(p.parent, nodes.system_message)]
             node = min(cands, key=lambda p: len(p.astext())) if cands else None
         elif k == "heading":
@@ -319,8 +323,11 @@ def check_case(acc, tree) -> list[dict]:
                 vs.append(mk("C04:included-file-lines-plus-one" if got_chain[:len(exp_chain)] == plus1
                              else "C04:container-lines:in-included-file", tree, {"marker": m, "chain": exp_chain}, {"chain": got_chain}))
         # --- the warning
-        wkey = {"unknown_dir": f"unk{m}", "unknown_role": f"unkrole{m}", "bad_option": f"bogus{m}", "strike": None}.get(k)
-        if k in ("unknown_dir", "unknown_role", "bad_option", "strike"):
+        wkey = {"unknown_dir": f"unk{m}", "unknown_role": f"unkrole{m}", "bad_option": f"bogus{m}", "strike": None,
+                "dupdef": f"DD{m.upper()}"}.get(k)
+        if k == "dupdef":
+            line = leaf["warn_line"]
+        if k in ("unknown_dir", "unknown_role", "bad_option", "strike", "dupdef"):
             if k == "strike":
                 # strikethrough warnings carry no marker: match by expected prefix count below
                 pref = f"{want_src}:{line}: "
